@@ -600,6 +600,17 @@ def do_step(ctx, w, rng, mode, grammar=1):
         rec["d"] = d
     elif op == "moveto":
         p = hg.vec(rng, stream)
+        if stream == "float" and rng.random() < 0.3:
+            # re-centring by a hair, far from the origin: first to a point ~100 nm away (second op below), then to
+            # that point + 10^-3…10^-7.  "to the requested point" has no tolerance that grows with the
+            # coordinates (seed C18-5: move_to skipped when np.allclose(centre, target), rtol 1e-5)
+            far = [rng.choice([-1, 1]) * rng.uniform(40.0, 300.0) for _ in range(3)]
+            st0, _ = w.run(f"moveto {i} {tok_v3(far)}", f"{kind}[{i}].move_to(far)", lambda: o.move_to(w.ro(far)))
+            eps = 10 ** -rng.uniform(3.0, 7.0)
+            p = [far[k] + rng.choice([-1, 0, 1]) * eps for k in range(3)]
+            if p == far:
+                p[0] += eps
+            ctx.count("moveto:near-tie-far-from-origin")
         st, _ = w.run(f"moveto {i} {tok_v3(p)}", f"{kind}[{i}].move_to", lambda: o.move_to(w.ro(p)))
         rec["p"] = p
     elif op == "rotate":
